@@ -503,3 +503,198 @@ func verifControlUnprotectedCounter[T any](other Observable[T]) func(Observable[
 	}
 }
 `
+
+// ATOMIC-POINTEE-IMMUTABLE: what an atomic pointer publishes is not mutated in place.
+func ruleAtomicPointeeImmutable() check.Rule {
+	return check.Rule{
+		Name:        "ATOMIC-POINTEE-IMMUTABLE",
+		NeedControl: true,
+		Doc:         "a pointer obtained from an atomic pointer cell (`p := cell.Load()`, `cell.Swap(…)` of atomic.Pointer / xatomic.Pointer) is only read through: no `*p = …`, `p.f = …`, `(*p)[i] = …`, `*p = append(*p, …)` in the function that loaded it. The discipline of an atomic cell is copy-and-publish (build a new value, Store / Swap / CompareAndSwap it); a read-modify-write through the loaded pointer is not atomic with the load, so a concurrent Swap takes the value away between the two and the write lands in (or is lost with) a value another goroutine already owns — values delivered twice or never, with no lock for the lock-set rule to miss and nothing the race detector is guaranteed to see in a test",
+		Run: func(c *check.Ctx) {
+			m := c.M
+			n := 0
+			for _, p := range m.Pkgs {
+				armed := c.ArmedPkg(p.PkgPath)
+				info := p.TypesInfo
+				scs := scLits(m)
+				for _, fn := range funcNodes(p) {
+					body := funcBody(fn)
+					if body == nil {
+						continue
+					}
+					loaded := map[types.Object]token.Pos{}
+					ast.Inspect(body, func(x ast.Node) bool {
+						if l, ok := x.(*ast.FuncLit); ok && ast.Node(l) != fn {
+							return false
+						}
+						as, ok := x.(*ast.AssignStmt)
+						if !ok || len(as.Lhs) != 1 || len(as.Rhs) != 1 {
+							return true
+						}
+						call, ok := ast.Unparen(as.Rhs[0]).(*ast.CallExpr)
+						if !ok {
+							return true
+						}
+						sel, ok := ast.Unparen(call.Fun).(*ast.SelectorExpr)
+						if !ok || (sel.Sel.Name != "Load" && sel.Sel.Name != "Swap") {
+							return true
+						}
+						if !isAtomicPointerCell(info.TypeOf(sel.X)) {
+							return true
+						}
+						if id, ok := as.Lhs[0].(*ast.Ident); ok {
+							if o := objOf(info, id); o != nil {
+								loaded[o] = call.Pos()
+							}
+						}
+						return true
+					})
+					// load-modify-store on one cell without CompareAndSwap: `next := f(cell.Load()); cell.Store(next)`
+					cellOf := func(e ast.Expr) types.Object {
+						if id, _ := rootIdent(e); id != nil && isAtomicPointerCell(info.TypeOf(e)) {
+							return objOf(info, id)
+						}
+						return nil
+					}
+					loadsCell := func(e ast.Node, cell types.Object, depth int) bool { return false }
+					loadsCell = func(e ast.Node, cell types.Object, depth int) bool {
+						found := false
+						ast.Inspect(e, func(y ast.Node) bool {
+							switch z := y.(type) {
+							case *ast.CallExpr:
+								if sel, ok := ast.Unparen(z.Fun).(*ast.SelectorExpr); ok && sel.Sel.Name == "Load" && cellOf(sel.X) == cell {
+									found = true
+								}
+							case *ast.Ident:
+								if v, ok := info.Uses[z].(*types.Var); ok && depth < 3 {
+									for _, d := range m.Defs[v] {
+										if d.Expr != nil && d.Pos >= body.Pos() && d.Pos <= body.End() && loadsCell(d.Expr, cell, depth+1) {
+											found = true
+										}
+									}
+								}
+							}
+							return !found
+						})
+						return found
+					}
+					hasCAS := map[types.Object]bool{}
+					var stores []*ast.CallExpr
+					ast.Inspect(body, func(x ast.Node) bool {
+						if l, ok := x.(*ast.FuncLit); ok && ast.Node(l) != fn {
+							return false
+						}
+						if call, ok := x.(*ast.CallExpr); ok {
+							if sel, ok := ast.Unparen(call.Fun).(*ast.SelectorExpr); ok {
+								if cell := cellOf(sel.X); cell != nil {
+									switch sel.Sel.Name {
+									case "CompareAndSwap":
+										hasCAS[cell] = true
+									case "Store":
+										stores = append(stores, call)
+									}
+								}
+							}
+						}
+						return true
+					})
+					for i, st := range stores {
+						sel := ast.Unparen(st.Fun).(*ast.SelectorExpr)
+						cell := cellOf(sel.X)
+						if cell == nil || hasCAS[cell] || len(st.Args) != 1 || !loadsCell(st.Args[0], cell, 0) {
+							continue
+						}
+						n++
+						key := fmt.Sprintf("%s/atomic-rmw-%s#%d", chainKey(m, p, m.EnclosingFuncs(p, fn), scs), cell.Name(), i+1)
+						c.Report(armed, key, st.Pos(), "%s is stored with a value computed from its own Load() and no CompareAndSwap: a Swap or Store from another goroutine between the two is overwritten (its values come back) or overtaken (these values are lost)", cell.Name())
+					}
+					if len(loaded) == 0 {
+						continue
+					}
+					k := 0
+					for _, w := range writesIn(info, fn) {
+						at, ok := loaded[w.Var]
+						if !ok || w.Node.Pos() < at {
+							continue
+						}
+						// a write *through* the pointer, not a re-binding of the local itself
+						through := false
+						ast.Inspect(w.Node, func(y ast.Node) bool {
+							switch z := y.(type) {
+							case *ast.StarExpr:
+								if id, _ := rootIdent(z.X); id != nil && objOf(info, id) == types.Object(w.Var) {
+									through = true
+								}
+							case *ast.SelectorExpr:
+								if id, ok := ast.Unparen(z.X).(*ast.Ident); ok && objOf(info, id) == types.Object(w.Var) {
+									if s, ok := info.Selections[z]; ok && s.Kind() == types.FieldVal {
+										through = true
+									}
+								}
+							}
+							return true
+						})
+						if as, ok := w.Node.(*ast.AssignStmt); ok && through {
+							// only the left-hand side counts
+							through = false
+							for _, l := range as.Lhs {
+								if _, isID := ast.Unparen(l).(*ast.Ident); !isID {
+									if id, _ := rootIdent(l); id != nil && objOf(info, id) == types.Object(w.Var) {
+										through = true
+									}
+								}
+							}
+						}
+						if !through {
+							continue
+						}
+						n++
+						k++
+						key := fmt.Sprintf("%s/atomic-pointee-%s#%d", chainKey(m, p, m.EnclosingFuncs(p, fn), scs), w.Var.Name(), k)
+						c.Report(armed, key, w.Node.Pos(), "%s was loaded from an atomic pointer cell and is written through here: the read-modify-write is not atomic with the load, a concurrent Swap/Store makes this write land in a value that was already handed over (or lose it)", w.Var.Name())
+					}
+				}
+			}
+			c.Inc("atomic_pointee_writes", n)
+		},
+	}
+}
+
+func isAtomicPointerCell(t types.Type) bool {
+	if t == nil {
+		return false
+	}
+	if p, ok := t.Underlying().(*types.Pointer); ok {
+		t = p.Elem()
+	}
+	named, ok := t.(*types.Named)
+	if !ok || named.Obj().Pkg() == nil {
+		return false
+	}
+	pp := named.Obj().Pkg().Path()
+	return named.Obj().Name() == "Pointer" && (pp == "sync/atomic" || strings.HasSuffix(pp, "/internal/xatomic"))
+}
+
+const controlsAtomicPointee = `
+func verifControlAtomicPointee[T any]() func(Observable[T]) Observable[[]T] {
+	return func(source Observable[T]) Observable[[]T] {
+		return NewObservableWithContext(func(subscriberCtx context.Context, destination Observer[[]T]) Teardown {
+			var buffer atomic.Pointer[[]T]
+			buffer.Store(&[]T{})
+			sub := source.SubscribeWithContext(subscriberCtx, NewObserverWithContext(
+				func(ctx context.Context, value T) {
+					current := buffer.Load()
+					*current = append(*current, value)
+				},
+				destination.ErrorWithContext,
+				func(ctx context.Context) {
+					tmp := buffer.Swap(&[]T{})
+					destination.NextWithContext(ctx, *tmp)
+					destination.CompleteWithContext(ctx)
+				},
+			))
+			return sub.Unsubscribe
+		})
+	}
+}
+`
